@@ -43,7 +43,7 @@ def run_property(prop, tier, groups, required_covers=None, assumptions=None, bou
     if qtimeout_ms is None:
         qtimeout_ms = 20000 if tier == "quick" else 120000
     if wall_timeout_s is None:
-        wall_timeout_s = 1500 if tier == "quick" else 4 * 3600
+        wall_timeout_s = 3000 if tier == "quick" else 4 * 3600
 
     problems = []  # inconclusive reasons
     all_results = []
